@@ -418,7 +418,10 @@ def _c09(ctx):
     def keep(m):
         return m[0] in ('rm', 'c2') or (m[0] == 'aux' and m[1] in used and m[2] in used)
     from .rules import tab
-    return [_t1(ctx, 'rhumb', None, 18), _t1(ctx, 'aux', None, 150, keep=keep), tab.rule_F1(ctx)]
+    from .rules import licrules
+    m9, n9 = licrules.rule_M9(ctx, [NSP + 'Rhumb', NSP + 'RhumbLine'])
+    m9.floor('mask selections in the rhumb classes', n9, 1)
+    return [_t1(ctx, 'rhumb', None, 18), _t1(ctx, 'aux', None, 150, keep=keep), tab.rule_F1(ctx), m9]
 
 
 def _c15(ctx):
@@ -443,7 +446,9 @@ def _c08(ctx):
     area.floor('paths', npth, 60)
     cons, nk, ncp = conserve.rule_CONS(ctx)
     cons.floor('kernels (Math::sum, Accumulator)', nk, 8)
-    return [p1, poly.rule_P2(ctx), poly.rule_P3(ctx), poly.rule_P4(ctx), poly.rule_P5(ctx), m7, area, cons, _m8b(ctx), _sib1(ctx)]
+    m9, n9 = licrules.rule_M9(ctx)
+    m9.floor('mask selections in the solvers the polygon calls', n9, 6)
+    return [p1, poly.rule_P2(ctx), poly.rule_P3(ctx), poly.rule_P4(ctx), poly.rule_P5(ctx), m7, area, cons, _m8b(ctx), _sib1(ctx), m9]
 
 
 def _c17(ctx):
